@@ -16,7 +16,7 @@ SPELL['go'] = SPELL['c99']
 
 BACKENDS = ('nr', 'r', 'cxx', 'c99', 'go')
 ALL_FEATS = ('bol', 'eol', 'fixtrail', 'vartrail', 'reject', 'yymore', 'yyless', 'unput', 'input', 'sc', 'stack',
-             'nul', 'eofrule', 'echo', 'terminate', 'sect3')
+             'nul', 'eofrule', 'echo', 'terminate', 'sect3', 's3less')
 
 class Variant:
     def __init__(s, name, backend, feats=(), options=(), flags=(), header=False, tables=False, expect_refuse=False, note='', raw_spec=None):
@@ -89,11 +89,17 @@ def probe(backend, feats, options):
     if 'sect3' in feats:
         L.append('/* user code section */')
         L.append('static int verif_user_symbol(void) { return 0; }')
+    if 's3less' in feats and backend != 'cxx':
+        # yyless() called from user code after the second %%: the cpp skeleton redefines the macro for this use
+        if backend == 'nr': L.append('static void __attribute__((used)) verif_s3_less(void) { yyless(1); }')
+        elif backend == 'r': L.append('static void __attribute__((used)) verif_s3_less(yyscan_t yyscanner) { struct yyguts_t *yyg = (struct yyguts_t *) yyscanner; yyless(1); }')
+        elif backend == 'c99': L.append('static void __attribute__((used)) verif_s3_less(yyscan_t yyscanner) { yyless(1, yyscanner); }')
+        else: L.append('static void __attribute__((used)) verif_s3_less(FlexLexer *yyscanner) { yyless(1, yyscanner); }')
     return '\n'.join(L) + '\n'
 
-FULL = ('bol', 'eol', 'fixtrail', 'vartrail', 'reject', 'yymore', 'yyless', 'unput', 'input', 'sc', 'stack', 'nul', 'eofrule', 'echo', 'terminate')
-NOREJ = ('bol', 'eol', 'fixtrail', 'yymore', 'yyless', 'unput', 'input', 'sc', 'stack', 'nul', 'eofrule', 'echo', 'terminate')
-PLAIN = ('yyless', 'unput', 'input', 'nul', 'eofrule', 'echo', 'terminate')      # accepted by -Cf/-CF (no bol: D1 is exercised separately)
+FULL = ('bol', 'eol', 'fixtrail', 'vartrail', 'reject', 'yymore', 'yyless', 'unput', 'input', 'sc', 'stack', 'nul', 'eofrule', 'echo', 'terminate', 's3less')
+NOREJ = ('bol', 'eol', 'fixtrail', 'yymore', 'yyless', 'unput', 'input', 'sc', 'stack', 'nul', 'eofrule', 'echo', 'terminate', 's3less')
+PLAIN = ('yyless', 'unput', 'input', 'nul', 'eofrule', 'echo', 'terminate', 's3less')      # accepted by -Cf/-CF (no bol: D1 is exercised separately)
 
 def core_variants():
     V = []
